@@ -306,12 +306,12 @@ def run_visit_guard(ctx: Ctx) -> RuleResult:
                     outs.append(norm(n.value))
                 if isinstance(n, ast.Yield) and n.value is not None:
                     outs.append(norm(n.value))
-            bad = [o for o in outs if o not in allowed]
-            # to_visit must come from the super call
-            if 'to_visit' in outs:
-                okv = any(isinstance(n, ast.Assign) and norm(n.targets[0]) == 'to_visit' and 'super(' in norm(n.value) for n in m.body_nodes())
-                if not okv:
-                    bad.append('to_visit')
+            # a local that holds what the super implementation scheduled is as good as that
+            nparam = m.positional_names()[0] if m.positional_names() else 'node'
+            from_super = {norm(n.targets[0]) for n in m.body_nodes() if isinstance(n, ast.Assign) and len(n.targets) == 1
+                          and isinstance(n.targets[0], ast.Name) and 'super(' in norm(n.value) and '.' + mname + '(' in norm(n.value)}
+            ok_set = {a.replace('node', nparam) for a in allowed} | from_super
+            bad = [o for o in outs if o not in ok_set]
             ok = not bad
             res.ob('%s %s' % (m.loc(), m.qual), 'schedules only children of the node it receives (%s)' % outs, ok)
             if not ok:
